@@ -12,17 +12,45 @@ def _get(fn):
 def serve(arg):
     import periodictable
     from periodictable import core, mass, density, covalent_radius, crystal_structure, xsf, magnetic_ff, cromermann
-    tabs = {"public": periodictable.elements}
-    if arg.get("private"):
-        t = core.PeriodicTable("T1")
+    def private(name):
+        t = core.PeriodicTable(name)
         for m in (mass, density, covalent_radius, crystal_structure, magnetic_ff):
             m.init(t)
         xsf.init(t)
         xsf.init_spectral_lines(t)
-        tabs["T1"] = t
+        return t
+
+    def scribble(t):
+        """what the owner of a private table may do with its data: override and edit it in place"""
+        for z in arg["zs"]:
+            el = t[z]
+            el.covalent_radius, el.covalent_radius_uncertainty = 9.99, 0.99
+            el.K_alpha, el.K_beta1 = 9.99, 8.88
+            cs = getattr(el, "crystal_structure", None)
+            if isinstance(cs, dict):
+                cs["symmetry"] = "edited"
+                cs["a"] = 99.0
+            try:
+                mf = el.magnetic_ff
+            except AttributeError:
+                continue
+            for q, ff in mf.items():
+                for jn in ("j0", "J", "j2", "j4", "j6"):
+                    if jn in vars(ff):
+                        setattr(ff, jn, tuple(9.0 for _ in getattr(ff, jn)))
+                        break
+    # order of service: the private table; then (after its owner has edited it) the public table and a second,
+    # freshly initialised private table
+    order = [("public", periodictable.elements)]
+    if arg.get("private"):
+        order = [("T1", private("T1")), ("public", periodictable.elements), ("T2", None)]
     out = []
     Qs = arg["Qs"]
-    for T, t in sorted(tabs.items()):
+    for T, t in order:
+        if T == "public" and arg.get("private"):
+            scribble(order[0][1])
+        if T == "T2":
+            t = private("T2")
         for z in arg["zs"]:
             el = t[z]
             ev = {"ev": "serve_el", "id": "el:%s:%d" % (T, z), "T": T, "z": z,
